@@ -377,9 +377,9 @@ def enforce(A: spmatrix,
     start = Aout.indptr[D]
     stop = Aout.indptr[D + 1]
     count = stop - start
-    idx = np.ones(count.sum(), dtype=np.int32)
-    idx[np.cumsum(count)[:-1]] -= count[:-1]
-    idx = np.repeat(start, count) + np.cumsum(idx) - 1
+    offset = np.arange(count.sum()) - np.repeat(np.cumsum(count) - count,
+                                                count)
+    idx = np.repeat(start, count) + offset
     Aout.data[idx] = 0.
 
     # set diagonal value
